@@ -194,7 +194,10 @@ Record header := {
   h_ids : nat;        (* NFT ids 0 .. ids-1 are observed *)
   h_start : Z;        (* ledger sequence at the start *)
   h_maxttl : Z;       (* host max_entry_ttl (bounds live_until of allowances / approvals) *)
-  h_owner : addr      (* KExample: the Ownable owner that gates mint *)
+  h_owner : addr;     (* KExample: the Ownable owner that gates mint *)
+  h_db : bool         (* the trace comes from a token that uses the DEFAULT FungibleBurnable bodies (Base::burn /
+                         Base::burn_from, no votes hook) instead of wiring them through FungibleVotes::burn:
+                         only [step_db] below looks at it, the theorems are about [step] *)
 }.
 
 Record state := {
@@ -462,9 +465,33 @@ Definition step_n (h : header) (s : state) (auths : list addr) (c : call) : res 
 
 Definition outcome := res Z.
 
+(* The library footgun: `impl FungibleBurnable for T {}` on a token whose ContractType is FungibleVotes keeps the
+   default bodies Base::burn / Base::burn_from - tokens are destroyed without transfer_voting_units.  This is the
+   model of such a token (everything else as KFung); it is used by the trace checker for traces with h_db = true
+   and by Properties/C13.v to show that units = balance fails under that wiring. *)
+Definition step_db_f (h : header) (s : state) (auths : list addr) (c : call) : res (state * Z) :=
+  match c with
+  | Burn from amount =>
+      do _ <- guard (has_auth auths from);
+      do s1 <- f_update s (Some from) None amount;
+      Ok (s1, 0)
+  | BurnFrom spender from amount =>
+      do _ <- guard (has_auth auths spender);
+      do s0 <- spend_allowance h s from spender amount;
+      do s1 <- f_update s0 (Some from) None amount;
+      Ok (s1, 0)
+  | _ => step_f h s auths c
+  end.
+
 (* one call: a failing call leaves the state unchanged (host rollback) *)
 Definition step (h : header) (s : state) (auths : list addr) (c : call) : state * outcome :=
   match (if is_fungible (h_kind h) then step_f h s auths c else step_n h s auths c) with
+  | Ok (s', r) => (s', Ok r)
+  | Fail => (s, Fail)
+  end.
+
+Definition step_db (h : header) (s : state) (auths : list addr) (c : call) : state * outcome :=
+  match step_db_f h s auths c with
   | Ok (s', r) => (s', Ok r)
   | Fail => (s, Fail)
   end.
